@@ -2,6 +2,7 @@ import EchVerif.Hex
 import EchVerif.ECH.Config
 import EchVerif.ECH.Conn
 import EchVerif.Spec.Hello
+import EchVerif.DNS.Text
 /-
   echdrv: line protocol driver.  One op per input line, one answer per output line.
   Imports no Mathlib (so that it links).  Each handler lives next to the model it drives.
@@ -144,6 +145,29 @@ def specOp (toks : List String) : Option String :=
     | none => some "err"
   | _ => none
 
+def dnsOp (toks : List String) : Option String :=
+  match toks with
+  | ["dns-decode", b] => do
+    let b ← unhex b
+    match DNS.decode b with
+    | some m => some ("ok " ++ DNS.Text.showMsg m)
+    | none => some "err"
+  | ["dns-encode", hdr, q, a, b, c] => do
+    let m ← DNS.Text.readEMsg hdr q a b c
+    match DNS.encode m with
+    | some bytes => some ("ok " ++ hex bytes)
+    | none => some "panic"
+  | ["dns-pad", hdr, q, a, b, c] => do
+    let m ← DNS.Text.readEMsg hdr q a b c
+    match DNS.addPadding m with
+    | some m' => some ("ok " ++ DNS.Text.showEMsg m')
+    | none => some "panic"
+  | ["dns-rcode", rc, ttl] => do
+    let rc ← rc.toNat?
+    let ttl := if ttl = "-" then none else ttl.toNat?
+    some (toString (DNS.responseCode rc ttl))
+  | _ => none
+
 def handle (toks : List String) : String :=
   match toks with
   -- C11 ------------------------------------------------------------------------------
@@ -199,7 +223,10 @@ partial def loop (h : IO.FS.Stream) (out : IO.FS.Stream) (w : World) : IO Unit :
   | none =>
     match specOp toks with
     | some ans => out.putStrLn ans; loop h out w
-    | none => out.putStrLn (handle toks); loop h out w
+    | none =>
+      match dnsOp toks with
+      | some ans => out.putStrLn ans; loop h out w
+      | none => out.putStrLn (handle toks); loop h out w
 
 end Drv
 
